@@ -305,6 +305,7 @@ def profile_for(pid, tier):
     elif pid == "C32":
         G["root_kinds"] = {"closure": 4, "partial": 3, "static": 1}
         G["static_kw"] = 0.5
+        P["perts"].update({"cache:decoy": 6})
     elif pid == "C22":
         G["root_kinds"] = {"static": 6, "vmap": 1, "scan": 1, "closure": 1}
         G["addr_styles"] = {"str": 3, "tuple": 3, "mixed": 1, "deep": 3}
